@@ -461,14 +461,48 @@ pub fn sha_hex(data: &[u8]) -> String {
     hex::encode(Sha256::digest(data))
 }
 
-/// Hash of a whole history. Excludes nothing: every field recorded is deterministic by design
-/// (raw bodies are represented by decoded canonical JSON or by a sha only where the bytes
-/// themselves are deterministic).
+/// Remove the few fields that depend on std's per-process HashMap seed: the library keeps an
+/// app's extra fields in a HashMap, so with two or more of them the serialised request bytes
+/// (and therefore their digest, the CUP signature over it, and the ETag) differ between
+/// processes although the decoded request is identical. Everything else is hashed.
+fn scrub(v: &mut Value) {
+    match v {
+        Value::Object(m) => {
+            let is_send = m.contains_key("uri") && m.contains_key("method");
+            let is_meta = m.contains_key("nonce_hex");
+            if is_send || is_meta {
+                m.remove("body_sha");
+            }
+            m.remove("signature");
+            if let Some(Value::Array(hs)) = m.get_mut("headers") {
+                for h in hs.iter_mut() {
+                    if let Value::Array(pair) = h {
+                        if pair.first().and_then(|k| k.as_str()) == Some("etag") && pair.len() == 2 {
+                            pair[1] = Value::String("<etag>".into());
+                        }
+                    }
+                }
+            }
+            for (_, x) in m.iter_mut() {
+                scrub(x);
+            }
+        }
+        Value::Array(a) => {
+            for x in a.iter_mut() {
+                scrub(x);
+            }
+        }
+        _ => {}
+    }
+}
+
+/// Hash of a whole history (see `scrub` for the only fields left out).
 pub fn history_hash(h: &History) -> String {
     use sha2::{Digest, Sha256};
     let mut hasher = Sha256::new();
     for r in h {
-        let v = serde_json::to_value(r).unwrap();
+        let mut v = serde_json::to_value(r).unwrap();
+        scrub(&mut v);
         hasher.update(canon(&v).as_bytes());
         hasher.update(b"\n");
     }
